@@ -26,6 +26,8 @@ globals()["nested_inner_catch_retry_task"]._vf.tiers = ("thorough",)   # 1665 sc
 
 more.register(globals(), {"C09"}, ["map_in_map"], {"map_in_map": [("_o%d" % k, "omc == %d" % k) for k in range(3)]})
 
+more.register(globals(), {"C09"}, ["fanout_loop", "map_retry_batches"])
+
 
 # ---------------------------------------------------------------------------
 # One-step kernels (Engine A)
